@@ -430,6 +430,29 @@ def packChunk(msg):
     lines.append(b'\r\n')
     return (b''.join(lines))
 
+def findEol(raw, eols):
+    """
+    Returns duple (index, eol) of the end of line in eols that occurs earliest
+    in raw. When two eols start at the same index the longer one wins.
+    Returns (-1, None) when raw does not yet hold a decidable end of line.
+    An eol that ends raw and is a proper prefix of a longer eol in eols
+    (CR when CRLF is also allowed) is not yet decidable since the next
+    read may complete the longer one.
+    """
+    index = -1
+    found = None
+    for eol in eols:
+        i = raw.find(eol)
+        if i >= 0 and (index < 0 or i < index or
+                       (i == index and len(eol) > len(found))):
+            index = i
+            found = eol
+    if index >= 0 and index + len(found) == len(raw):
+        for eol in eols:
+            if len(eol) > len(found) and eol.startswith(found):
+                return (-1, None)
+    return (index, found)
+
 def parseLine(raw, eols=(CRLF, LF, CR ), kind="event line"):
     """
     Generator to parse  line from raw bytearray
@@ -444,10 +467,7 @@ def parseLine(raw, eols=(CRLF, LF, CR ), kind="event line"):
     Raise error if eol not found before MAX_LINE_SIZE
     """
     while True:
-        for eol in eols:  # loop over eols unless found
-            index = raw.find(eol)  # not found index == -1
-            if index >= 0:
-                break
+        index, eol = findEol(raw, eols)
 
         if index < 0:  # not found
             if len(raw) > MAX_LINE_SIZE:
@@ -476,10 +496,7 @@ def parseLeader(raw, eols=(CRLF, LF), kind="leader header line", headers=None):
     """
     headers = headers if headers is not None else cimdict()
     while True:  # loop until entire heading indicated by empty line
-        for eol in eols:  # loop over eols unless found
-            index = raw.find(eol)  # not found index == -1
-            if index >= 0:
-                break
+        index, eol = findEol(raw, eols)
 
         if index < 0:  # not found
             if len(raw) > MAX_LINE_SIZE:
